@@ -19,7 +19,7 @@ partial def valueOf (j : Json) : Option Value :=
     match j.getObjVal? "t", j.getObjVal? "d", j.getObjVal? "q" with
     | .ok (.arr a), _, _ => (a.toList.mapM valueOf).map Value.tup
     | _, .ok (.obj kvs), _ =>
-      (kvs.toList.mapM fun (k, v) => (valueOf v).map fun w => (k, w)).map Value.dict
+      (kvs.toList.mapM fun (kv : String × Json) => (valueOf kv.2).map fun w => (kv.1, w)).map Value.dict
     | _, _, .ok (.arr #[n, d]) => do some (.quot (← int? n) (← int? d))
     | _, _, _ => none
   | _ => none
